@@ -111,6 +111,7 @@ type srcOpts struct {
 	By          bool   // programs are bystanders: plain functions next to a generator (C13)
 	CompileOnly bool   // stop after compiling and building the generated packages (C11)
 	Box         bool   // generators of element type *rt.Box (fresh objects), adapted to the int protocol by rt.BoxIt
+	ElemExtras  bool   // all_co.go also declares generators of other element types (slice, map, func, any, error, pointer, Iter[int], type parameter)
 	BoxVal      bool   // with Box: element type rt.BoxV (struct value, composite literal operands), adapter rt.BoxVIt
 	PerPkg      int    // programs per package (crash isolation granularity)
 	Race        bool
@@ -465,6 +466,9 @@ func runSrcFamilyN(c *vf.Check, cases []srcCase, callsOf func(i int) int, o srcO
 			all.WriteString("}\n")
 			if o.Opt {
 				all.WriteString(optDecls)
+			}
+			if o.ElemExtras {
+				all.WriteString(strings.ReplaceAll(strings.ReplaceAll(strings.ReplaceAll(elemExtras, "Iter[", api+"Iter["), "Yield(", api+"Yield("), "YieldFrom(", api+"YieldFrom("))
 			}
 			if o.Deleg {
 				all.WriteString(strings.ReplaceAll(strings.ReplaceAll(strings.ReplaceAll(delegCo, "Iter[int]", api+"Iter[int]"), "Yield(", api+"Yield("), "YieldFrom(", api+"YieldFrom("))
@@ -887,3 +891,93 @@ func boxAdapter(o srcOpts) string {
 	}
 	return "rt.BoxIt"
 }
+
+// elemExtras: generators over element types other than int (C11: the element type is arbitrary).
+const elemExtras = `
+type elemT struct{ A, B int }
+
+func elSlice(n int) Iter[[]int] {
+	for i := 0; i < n; i++ {
+		Yield([]int{i})
+	}
+	return nil
+}
+
+func elMap(n int) Iter[map[string]int] {
+	Yield(map[string]int{"n": n})
+	Yield[map[string]int](nil)
+	return nil
+}
+
+func elFunc(n int) Iter[func() int] {
+	for i := 0; i < n; i++ {
+		Yield(func() int { return i })
+	}
+	return nil
+}
+
+func elAny(n int) Iter[any] {
+	Yield[any](n)
+	Yield[any]("s")
+	Yield[any](nil)
+	return nil
+}
+
+func elErr(n int) Iter[error] {
+	Yield[error](nil)
+	return nil
+}
+
+func elStruct(n int) Iter[elemT] {
+	Yield(elemT{n, n})
+	return nil
+}
+
+func elPtr(n int) Iter[*elemT] {
+	Yield(&elemT{n, n})
+	return nil
+}
+
+func elChan(n int) Iter[chan int] {
+	Yield(make(chan int))
+	return nil
+}
+
+func elInner(i int) Iter[int] {
+	Yield(i)
+	return nil
+}
+
+// a generator of generators
+func elIters(n int) Iter[Iter[int]] {
+	for i := 0; i < n; i++ {
+		Yield(elInner(i))
+	}
+	return nil
+}
+
+// flattening consumer-generator
+func elFlat(n int) Iter[int] {
+	for it := range elIters(n) {
+		YieldFrom(it)
+	}
+	return nil
+}
+
+func elGeneric[T any](xs ...T) Iter[T] {
+	for _, x := range xs {
+		Yield(x)
+	}
+	return nil
+}
+
+func elPair[K comparable, V any](m map[K]V) Iter[V] {
+	for _, v := range m {
+		Yield(v)
+	}
+	return nil
+}
+
+var _ = elGeneric[string]
+var _ = elPair[string, elemT]
+`
